@@ -122,68 +122,6 @@ package atree
 //@   ensures[C09] m.header.slabID == old(m.header.slabID) && as(slab, *MapMetaDataSlab).header.slabID == old(as(slab, *MapMetaDataSlab).header.slabID)
 //@   modifies m.childrenHeaders, m.header, as(slab, *MapMetaDataSlab).childrenHeaders, as(slab, *MapMetaDataSlab).header, ghost.touched
 
-//@ # ---- MapDataSlab as seen by its parent (header-level contracts). Bodies delegate to the element lists; they are not yet
-//@ # verified at this level and are listed as trusted in evidence.
-
-//@ pred wfMDS(d *MapDataSlab) = d != nil && d.elements != nil && !d.inlined && d.extraData == nil && !d.anySize &&
-//@      d.header.size == 18 + elsSize(d.elements)
-
-//@ func (m *MapDataSlab) Split(storage) (left, right, err)  serves C02 C05 C06 C09
-//@   trusted "body delegates to elements.Split; not yet verified at slab level"
-//@   requires wfMDS(m) && storage != nil && m.header.size > maxThreshold
-//@   ensures err != nil ==> categorised(err)
-//@   ensures err == nil ==> left == m && is(right, *MapDataSlab) && fresh(right) && wfMDS(m) && wfMDS(as(right, *MapDataSlab)) &&
-//@        mhdrBand(m.header) && mhdrBand(as(right, *MapDataSlab).header) && m.header.firstKey == old(m.header.firstKey) &&
-//@        m.header.firstKey < as(right, *MapDataSlab).header.firstKey &&
-//@        m.header.slabID == old(m.header.slabID) && as(right, *MapDataSlab).header.slabID.address == old(m.header.slabID.address) &&
-//@        as(right, *MapDataSlab).header.slabID != SlabIDUndefined && sto[as(right, *MapDataSlab).header.slabID] == nil &&
-//@        as(right, *MapDataSlab).next == old(m.next) && m.next == as(right, *MapDataSlab).header.slabID
-//@   modifies m.elements, m.header, m.next, hkeyElements.*@inSub(m), singleElements.*@inSub(m), ghost.touched, alloc
-
-//@ func (m *MapDataSlab) Merge(slab) (err)  serves C02 C05 C06 C09
-//@   trusted "body delegates to elements.Merge; not yet verified at slab level"
-//@   requires is(slab, *MapDataSlab) && m != slab && wfMDS(m) && wfMDS(as(slab, *MapDataSlab))
-//@   ensures err != nil ==> categorised(err)
-//@   ensures err == nil ==> wfMDS(m) && m.header.size == old(m.header.size) + old(as(slab, *MapDataSlab).header.size) - 18 - 8 &&
-//@        m.header.slabID == old(m.header.slabID) && m.header.firstKey == old(m.header.firstKey) && m.next == old(as(slab, *MapDataSlab).next)
-//@   modifies m.elements, m.header, m.next, hkeyElements.*@inSub(m), singleElements.*@inSub(m), ghost.touched, alloc
-
-//@ ghost canLendLM : fn(d ref, size int) bool
-//@ ghost canLendRM : fn(d ref, size int) bool
-
-//@ func (m *MapDataSlab) CanLendToLeft(size) (r)  serves C05
-//@   trusted "body delegates to elements.CanLendToLeft; the witness is abstracted as canLendLM"
-//@   requires wfMDS(m)
-//@   ensures r == canLendLM(m, size)
-//@   ensures !r ==> m.header.size < minThreshold + size + maxInlineMapElementSize + 8
-//@   pure
-
-//@ func (m *MapDataSlab) CanLendToRight(size) (r)  serves C05
-//@   trusted "body delegates to elements.CanLendToRight; the witness is abstracted as canLendRM"
-//@   requires wfMDS(m)
-//@   ensures r == canLendRM(m, size)
-//@   ensures !r ==> m.header.size < minThreshold + size + maxInlineMapElementSize + 8
-//@   pure
-
-//@ func (m *MapDataSlab) LendToRight(slab) (err)  serves C02 C05 C06
-//@   trusted "body delegates to elements.LendToRight; not yet verified at slab level"
-//@   requires is(slab, *MapDataSlab) && m != slab && wfMDS(m) && wfMDS(as(slab, *MapDataSlab)) &&
-//@        as(slab, *MapDataSlab).header.size < minThreshold && canLendRM(m, minThreshold - as(slab, *MapDataSlab).header.size)
-//@   ensures err != nil ==> categorised(err)
-//@   ensures err == nil ==> wfMDS(m) && wfMDS(as(slab, *MapDataSlab)) && mhdrBand(m.header) && mhdrBand(as(slab, *MapDataSlab).header) &&
-//@        m.header.slabID == old(m.header.slabID) && as(slab, *MapDataSlab).header.slabID == old(as(slab, *MapDataSlab).header.slabID) &&
-//@        m.header.firstKey == old(m.header.firstKey)
-//@   modifies m.elements, m.header, as(slab, *MapDataSlab).elements, as(slab, *MapDataSlab).header, hkeyElements.*@inSub(m), hkeyElements.*@inSub(slab), ghost.touched, alloc
-
-//@ func (m *MapDataSlab) BorrowFromRight(slab) (err)  serves C02 C05 C06
-//@   trusted "body delegates to elements.BorrowFromRight; not yet verified at slab level"
-//@   requires is(slab, *MapDataSlab) && m != slab && wfMDS(m) && wfMDS(as(slab, *MapDataSlab)) &&
-//@        m.header.size < minThreshold && canLendLM(as(slab, *MapDataSlab), minThreshold - m.header.size)
-//@   ensures err != nil ==> categorised(err)
-//@   ensures err == nil ==> wfMDS(m) && wfMDS(as(slab, *MapDataSlab)) && mhdrBand(m.header) && mhdrBand(as(slab, *MapDataSlab).header) &&
-//@        m.header.slabID == old(m.header.slabID) && as(slab, *MapDataSlab).header.slabID == old(as(slab, *MapDataSlab).header.slabID)
-//@   modifies m.elements, m.header, as(slab, *MapDataSlab).elements, as(slab, *MapDataSlab).header, hkeyElements.*@inSub(m), hkeyElements.*@inSub(slab), ghost.touched, alloc
-
 //@ # ---- parent bookkeeping of a map index slab
 
 //@ pred mNodeWF(c MapSlab) = ite(is(c, *MapDataSlab), wfMDS(as(c, *MapDataSlab)), wfMM(as(c, *MapMetaDataSlab)) && as(c, *MapMetaDataSlab).extraData == nil)
@@ -191,7 +129,8 @@ package atree
 //@ func (m *MapMetaDataSlab) SplitChildSlab(storage, child, chi) (err)  serves C02 C03 C05 C06 C09
 //@   requires storage != nil && wfMM0(m) && mLinked(m) && 0 <= chi && chi < len(m.childrenHeaders)
 //@   requires isMapSlab(child) && child == sto[m.childrenHeaders[chi].slabID] && mNodeWF(child) && m.header.size + 18 <= 4294967295
-//@   requires mhdrOf(child).size > maxThreshold && (is(child, *MapMetaDataSlab) ==> mhdrOf(child).size <= maxThreshold + 18)
+//@   requires mhdrOf(child).size > maxThreshold && (is(child, *MapMetaDataSlab) ==> mhdrOf(child).size <= maxThreshold + 18) &&
+//@        (is(child, *MapDataSlab) ==> mhdrOf(child).size <= maxThreshold + maxInlineMapElementSize + 8)
 //@   ensures err != nil ==> categorised(err)
 //@   ensures[C06] err == nil ==> wfMM0(m) && m.header.slabID == old(m.header.slabID) && m.header.size == old(m.header.size) + 18
 //@   ensures[C09] err == nil ==> sto[m.header.slabID] == m && mDistinct(m)
@@ -207,14 +146,21 @@ package atree
 //@        as(child, *MapDataSlab).elements, as(child, *MapDataSlab).header, as(child, *MapDataSlab).next, hkeyElements.*@inSub(child), singleElements.*@inSub(child),
 //@        as(child, *MapMetaDataSlab).childrenHeaders, as(child, *MapMetaDataSlab).header
 
+//@ # key ranges of adjacent children do not overlap: for index slabs by their first keys, for leaves by their digests (two leaves hold
+//@ # distinct lists of the same level)
+//@ pred mAdjOrdered(x MapSlab, y MapSlab) = (is(x, *MapMetaDataSlab) && is(y, *MapMetaDataSlab) ==>
+//@      as(x, *MapMetaDataSlab).childrenHeaders[len(as(x, *MapMetaDataSlab).childrenHeaders) - 1].firstKey < as(y, *MapMetaDataSlab).childrenHeaders[0].firstKey) &&
+//@      (is(x, *MapDataSlab) && is(y, *MapDataSlab) ==> hkBefore(mdsHk(as(x, *MapDataSlab)), mdsHk(as(y, *MapDataSlab))) &&
+//@      mdsHk(as(x, *MapDataSlab)).level == mdsHk(as(y, *MapDataSlab)).level && mdsHk(as(x, *MapDataSlab)) != mdsHk(as(y, *MapDataSlab)))
+
 //@ func (m *MapMetaDataSlab) rebalanceChildren(storage, l, r, li, ri, borrow) (err)  serves C02 C03 C05 C06 C09
 //@   requires storage != nil && wfMM0(m) && mLinked(m) && 0 <= li && ri == li + 1 && ri < len(m.childrenHeaders)
 //@   requires isMapSlab(l) && isMapSlab(r) && sameKindM(l, r) && l == sto[m.childrenHeaders[li].slabID] && r == sto[m.childrenHeaders[ri].slabID] && mNodeWF(l) && mNodeWF(r)
-//@   requires is(l, *MapMetaDataSlab) ==> as(l, *MapMetaDataSlab).childrenHeaders[len(as(l, *MapMetaDataSlab).childrenHeaders) - 1].firstKey < as(r, *MapMetaDataSlab).childrenHeaders[0].firstKey
+//@   requires mAdjOrdered(l, r)
 //@   requires borrow ==> mhdrOf(l).size < minThreshold && mhdrOf(r).size <= maxThreshold &&
-//@        ite(is(r, *MapDataSlab), canLendLM(r, minThreshold - mhdrOf(l).size), canLendMM(as(r, *MapMetaDataSlab), minThreshold - mhdrOf(l).size))
+//@        ite(is(r, *MapDataSlab), canLendLM(as(r, *MapDataSlab), minThreshold - mhdrOf(l).size), canLendMM(as(r, *MapMetaDataSlab), minThreshold - mhdrOf(l).size))
 //@   requires !borrow ==> mhdrOf(r).size < minThreshold && mhdrOf(l).size <= maxThreshold &&
-//@        ite(is(l, *MapDataSlab), canLendRM(l, minThreshold - mhdrOf(r).size), canLendMM(as(l, *MapMetaDataSlab), minThreshold - mhdrOf(r).size))
+//@        ite(is(l, *MapDataSlab), canLendRM(as(l, *MapDataSlab), minThreshold - mhdrOf(r).size), canLendMM(as(l, *MapMetaDataSlab), minThreshold - mhdrOf(r).size))
 //@   ensures err != nil ==> categorised(err)
 //@   ensures[C06] err == nil ==> wfMM0(m) && m.header.slabID == old(m.header.slabID) && m.header.size == old(m.header.size)
 //@   ensures[C02] err == nil ==> len(m.childrenHeaders) == len(old(m.childrenHeaders)) &&
@@ -231,7 +177,7 @@ package atree
 //@ func (m *MapMetaDataSlab) mergeChildren(storage, l, r, li, ri) (err)  serves C02 C03 C05 C06 C09
 //@   requires storage != nil && wfMM0(m) && mLinked(m) && 0 <= li && ri == li + 1 && ri < len(m.childrenHeaders)
 //@   requires isMapSlab(l) && isMapSlab(r) && sameKindM(l, r) && l == sto[m.childrenHeaders[li].slabID] && r == sto[m.childrenHeaders[ri].slabID] && mNodeWF(l) && mNodeWF(r)
-//@   requires is(l, *MapMetaDataSlab) ==> as(l, *MapMetaDataSlab).childrenHeaders[len(as(l, *MapMetaDataSlab).childrenHeaders) - 1].firstKey < as(r, *MapMetaDataSlab).childrenHeaders[0].firstKey
+//@   requires mAdjOrdered(l, r)
 //@   requires mhdrOf(l) == m.childrenHeaders[li] && mhdrOf(r) == m.childrenHeaders[ri]
 //@   requires minThreshold + ite(is(l, *MapDataSlab), 26, 12) <= mhdrOf(l).size + mhdrOf(r).size && mhdrOf(l).size + mhdrOf(r).size - ite(is(l, *MapDataSlab), 26, 12) <= maxThreshold
 //@   ensures err != nil ==> categorised(err)
@@ -239,7 +185,9 @@ package atree
 //@   ensures[C02] err == nil ==> len(m.childrenHeaders) == len(old(m.childrenHeaders)) - 1 &&
 //@        (forall k :: 0 <= k && k < li ==> m.childrenHeaders[k] == old(m.childrenHeaders)[k]) &&
 //@        (forall k :: li < k && k < len(m.childrenHeaders) ==> m.childrenHeaders[k] == old(m.childrenHeaders)[k + 1]) &&
-//@        m.childrenHeaders[li].firstKey == old(m.childrenHeaders)[li].firstKey && m.childrenHeaders[li].slabID == old(m.childrenHeaders)[li].slabID
+//@        m.childrenHeaders[li].slabID == old(m.childrenHeaders)[li].slabID &&
+//@        (is(l, *MapMetaDataSlab) || old(len(mdsHk(as(l, *MapDataSlab)).hkeys)) > 0 ==> m.childrenHeaders[li].firstKey == old(m.childrenHeaders)[li].firstKey) &&
+//@        (is(l, *MapDataSlab) && old(len(mdsHk(as(l, *MapDataSlab)).hkeys)) == 0 && old(len(mdsHk(as(r, *MapDataSlab)).hkeys)) > 0 ==> m.childrenHeaders[li].firstKey == old(m.childrenHeaders)[ri].firstKey)
 //@   ensures[C05] err == nil ==> mhdrBand(m.childrenHeaders[li])
 //@   ensures[C09] err == nil ==> sto[old(m.childrenHeaders)[ri].slabID] == nil && sto[m.header.slabID] == m && mDistinct(m)
 //@   ensures[C09] err == nil ==> mAgree(m)
@@ -252,10 +200,6 @@ package atree
 //@ pred mSibReady(m *MapMetaDataSlab, k int, child MapSlab) = isMapSlab(sto[m.childrenHeaders[k].slabID]) && sameKindM(sto[m.childrenHeaders[k].slabID], child) &&
 //@      mNodeWF(sto[m.childrenHeaders[k].slabID]) && mhdrBand(m.childrenHeaders[k]) && sto[m.childrenHeaders[k].slabID] != child &&
 //@      inSub(m, sto[m.childrenHeaders[k].slabID]) && !inSub(sto[m.childrenHeaders[k].slabID], m)
-
-//@ # key ranges of adjacent index-slab children do not overlap (needed only when two index-slab children are merged or rebalanced)
-//@ pred mAdjOrdered(x MapSlab, y MapSlab) = is(x, *MapMetaDataSlab) && is(y, *MapMetaDataSlab) ==>
-//@      as(x, *MapMetaDataSlab).childrenHeaders[len(as(x, *MapMetaDataSlab).childrenHeaders) - 1].firstKey < as(y, *MapMetaDataSlab).childrenHeaders[0].firstKey
 
 //@ func (m *MapMetaDataSlab) MergeOrRebalanceChildSlab(storage, child, chi, underflowSize) (err)  serves C02 C03 C05 C06 C09
 //@   requires storage != nil && wfMM0(m) && mLinked(m) && 0 <= chi && chi < len(m.childrenHeaders) && len(m.childrenHeaders) >= 2
@@ -274,29 +218,7 @@ package atree
 //@   modifies MapMetaDataSlab.childrenHeaders@inSub(m), MapMetaDataSlab.header@inSub(m), MapDataSlab.elements@inSub(m), MapDataSlab.header@inSub(m), MapDataSlab.next@inSub(m),
 //@        hkeyElements.*@inSub(m), singleElements.*@inSub(m), ghost.sto, ghost.stored, ghost.touched, alloc
 
-//@ pred stoFrameMDS(d *MapDataSlab, vr1 ref, vr2 ref) = forall id SlabID :: old(sto[id]) != nil && old(sto[id]) != vr1 && old(sto[id]) != vr2 && id != old(d.header.slabID) && !inSub(d, old(sto[id])) ==> sto[id] == old(sto[id])
 //@ pred stoFrameMM(m *MapMetaDataSlab, vr1 ref, vr2 ref) = forall id SlabID :: old(sto[id]) != nil && old(sto[id]) != vr1 && old(sto[id]) != vr2 && !inSub(m, old(sto[id])) ==> sto[id] == old(sto[id])
-
-//@ func (m *MapDataSlab) Set(storage, b, digester, level, hkey, comparator, hip, key, value) (ks, existing, err)  serves C02 C03 C05 C06
-//@   trusted "body delegates to elements.Set (hkeyElements.Set is verified separately); slab-level header bookkeeping not yet verified"
-//@   requires wfMDS(m) && storage != nil && m.header.size <= maxThreshold
-//@   ensures err == nil ==> wfMDS(m) && m.header.slabID == old(m.header.slabID) && has(stored, m) && sto[m.header.slabID] == m &&
-//@        m.header.size <= old(m.header.size) + maxInlineMapElementSize + 8 && m.header.size >= 26 &&
-//@        m.header.firstKey == ite(hkey < old(m.header.firstKey) || old(m.header.size) == 26, hkey, old(m.header.firstKey))
-//@   ensures stoFrameMDS(m, valueRoot(key), valueRoot(value))
-//@   modifies m.header, m.elements, hkeyElements.*@inSub(m), singleElements.*@inSub(m), singleElement.*@inSub(m), inlineCollisionGroup.*@inSub(m), externalCollisionGroup.*@inSub(m),
-//@        MapDataSlab.*@inSub(m), ghost.sto, ghost.stored, ghost.touched, alloc,
-//@        as(valueRoot(key), *ArrayDataSlab).header, as(valueRoot(key), *ArrayDataSlab).inlined, as(valueRoot(key), *MapDataSlab).header, as(valueRoot(key), *MapDataSlab).inlined,
-//@        as(valueRoot(value), *ArrayDataSlab).header, as(valueRoot(value), *ArrayDataSlab).inlined, as(valueRoot(value), *MapDataSlab).header, as(valueRoot(value), *MapDataSlab).inlined
-
-//@ func (m *MapDataSlab) Remove(storage, digester, level, hkey, comparator, key) (k, v, err)  serves C02 C03 C05 C06
-//@   trusted "body delegates to elements.Remove (hkeyElements.Remove is verified separately); slab-level header bookkeeping not yet verified"
-//@   requires wfMDS(m) && storage != nil && m.header.size <= maxThreshold
-//@   ensures err == nil ==> wfMDS(m) && m.header.slabID == old(m.header.slabID) && has(stored, m) && sto[m.header.slabID] == m &&
-//@        m.header.size <= old(m.header.size) + maxInlineMapElementSize && m.header.size >= 26 && (m.header.firstKey >= old(m.header.firstKey) || m.header.size == 26)
-//@   ensures stoFrameMDS(m, nil, nil)
-//@   modifies m.header, m.elements, hkeyElements.*@inSub(m), singleElements.*@inSub(m), singleElement.*@inSub(m), inlineCollisionGroup.*@inSub(m), externalCollisionGroup.*@inSub(m),
-//@        MapDataSlab.*@inSub(m), ghost.sto, ghost.stored, ghost.touched, alloc
 
 //@ pred mChildrenReady(m *MapMetaDataSlab) = forall k :: 0 <= k && k < len(m.childrenHeaders) ==>
 //@      mNodeWF(sto[m.childrenHeaders[k].slabID]) && mhdrBand(m.childrenHeaders[k]) &&
@@ -309,6 +231,7 @@ package atree
 
 //@ func (m *MapMetaDataSlab) Remove(storage, digester, level, hkey, comparator, key) (k, v, err)  serves C02 C03 C05 C06 C09 C18
 //@   requires storage != nil && wfMM(m) && mLinked(m) && len(m.childrenHeaders) >= 2 && m.header.size + 18 <= 4294967295
+//@   requires digester != nil && comparator != nil && level == 0
 //@   assume (forall q :: 0 <= q && q < len(m.childrenHeaders) ==> mhdrBand(m.childrenHeaders[q])) because "tree invariant (composition): every child of m is in band before the operation"
 //@   assume mChildrenReady(m) because "tree invariant (composition): children of m are well-formed, in band, linked, with disjoint subtrees and ascending key ranges"
 //@   ensures[C18] hkey < old(m.childrenHeaders)[0].firstKey ==> err != nil && isUser(err) && isKeyNotFound(err) && sto == old(sto) && touched == old(touched) &&
@@ -327,6 +250,7 @@ package atree
 
 //@ func (m *MapMetaDataSlab) Set(storage, b, digester, level, hkey, comparator, hip, key, value) (ks, existing, err)  serves C02 C03 C05 C06 C09
 //@   requires storage != nil && wfMM(m) && mLinked(m) && len(m.childrenHeaders) >= 2 && m.header.size + 18 <= 4294967295
+//@   requires digester != nil && comparator != nil && key != nil && value != nil && level == 0
 //@   assume (forall q :: 0 <= q && q < len(m.childrenHeaders) ==> mhdrBand(m.childrenHeaders[q])) because "tree invariant (composition): every child of m is in band before the operation"
 //@   assume mChildrenReady(m) because "tree invariant (composition): children of m are well-formed, in band, linked, with disjoint subtrees and ascending key ranges"
 //@   assume !inSub(m, valueRoot(key)) && !inSub(m, valueRoot(value)) because "frame assumption F: key and value are not containers inside the subtree of m"
@@ -337,7 +261,7 @@ package atree
 //@   ensures[C02 C03] err == nil ==> has(stored, m)
 //@   modifies MapMetaDataSlab.childrenHeaders@inSub(m), MapMetaDataSlab.header@inSub(m), MapDataSlab.*@inSub(m),
 //@        hkeyElements.*@inSub(m), singleElements.*@inSub(m), singleElement.*@inSub(m), inlineCollisionGroup.*@inSub(m), externalCollisionGroup.*@inSub(m),
-//@        ghost.sto, ghost.stored, ghost.touched, alloc,
+//@        ghost.refusals, ghost.sto, ghost.stored, ghost.touched, alloc,
 //@        as(valueRoot(key), *ArrayDataSlab).header, as(valueRoot(key), *ArrayDataSlab).inlined, as(valueRoot(key), *MapDataSlab).header, as(valueRoot(key), *MapDataSlab).inlined,
 //@        as(valueRoot(value), *ArrayDataSlab).header, as(valueRoot(value), *ArrayDataSlab).inlined, as(valueRoot(value), *MapDataSlab).header, as(valueRoot(value), *MapDataSlab).inlined
 //@   loop 1: invariant 0 <= i && i <= j && j <= len(m.childrenHeaders) && 0 <= ans && ans < len(m.childrenHeaders) && (i > 0 ==> ans == i - 1) && (i == 0 ==> ans == 0) &&
